@@ -107,7 +107,7 @@ inductive MStep
   | ret (e : MExpr)
   | lock | unlock                             -- WASM_MUTEX_LOCK/UNLOCK(&memory->mutex)
   | realloc (r : Nat) (p n : MExpr)           -- r := realloc(p, n)        (non-shared memories only)
-  | memset (d v n : MExpr)
+  | memset (p : Nat) (off v n : MExpr)       -- memset(<pointer local p> + off, v, n)   (bytes; non-shared only)
   | abort
   deriving DecidableEq, Repr
 
